@@ -159,6 +159,7 @@ class Obj(T):
     methods: Tuple[M, ...] = ()
     base_specs: Tuple[Any, ...] = ()  # Obj specs of the bases (same order as `bases`)
     post_effects: Tuple[Tuple[str, Any], ...] = ()  # __post_init__ semantics: target field = fn(field values)
+    slots: bool = False  # @dataclass(slots=True)
     dc_init: bool = True  # False: @dataclass(init=False), the class body (extra_src) writes __init__ itself
 
     def key(self):
